@@ -141,6 +141,17 @@ def priors():
                 return Scenario(B, items)
             yield f'dup_empty_{order}_{"same" if h2 == H1 else "other"}', dup_empty
 
+    def twin_names():
+        # a file of the top directory and a file of d/ with the same NAME and the same CONTENT: their entries, each
+        # relative to its own Manifest, compare equal although they name different files
+        files = dict(B)
+        files['f1'] = B['d/f1']
+        return Scenario(files, [
+            MSpec(TOP, [_F('f0'), _F('f1'), _F('g/f3'), _F('dx/f5'), _F('d.txt'), ('M', 'd/Manifest', H1)]),
+            MSpec('d/Manifest', [_F('d/f1'), _F('d/e/f2')]),
+        ])
+    yield 'twin_names', twin_names
+
     def dup_parent_child():
         return Scenario(B, [
             MSpec(TOP, [_F('f0'), _F('g/f3'), _F('dx/f5'), _F('d.txt'), _F('d/f1'), _F('d/e/f2'), ('M', 'd/Manifest', H1)]),
@@ -246,10 +257,11 @@ def priors():
 
     def tags_rich():
         files = dict(B)
-        files.update({'files/aux1': b'aux', 'p-1.ebuild': b'eb', 'metadata.xml': b'<x/>', 'out/o1': b'outside'})
+        files.update({'files/aux1': b'aux', 'files/fix-less.patch': b'aux whose name starts with letters of "files"',
+                      'p-1.ebuild': b'eb', 'metadata.xml': b'<x/>', 'out/o1': b'outside'})
         return Scenario(files, [
             MSpec(TOP, [_F('f0'), _F('dx/f5'), _F('d.txt'), ('F', 'EBUILD', 'p-1.ebuild', H1), ('F', 'MISC', 'metadata.xml', H1),
-                        ('F', 'AUX', 'files/aux1', H1), _F('g/f3', ('MD5',)), _F('out/o1', ('MD5', 'SHA1')),
+                        ('F', 'AUX', 'files/aux1', H1), ('F', 'AUX', 'files/fix-less.patch', H1), _F('g/f3', ('MD5',)), _F('out/o1', ('MD5', 'SHA1')),
                         ('M', 'd/Manifest.gz', H1),
                         ('L', 'DIST a.tar 1 SHA1 ' + 'a' * 40), ('L', 'DIST b.tar 2 SHA1 ' + 'b' * 40),
                         ('L', 'IGNORE ign'), ('L', 'IGNORE ign2'),
